@@ -137,7 +137,7 @@ func (rr *RunResult) UnitDir(i int) string { return filepath.Join(rr.RunDir, fmt
 var childEnv = append(os.Environ(), "GOMAXPROCS=1", "GOGC=200", "AS=", "LD=", "FERRET_TOOLCHAIN_PATH=")
 
 // RunTimeout is the wall-clock cap of one run, per unit.
-var RunTimeout = 60 * time.Second
+var RunTimeout = 240 * time.Second
 
 func (p *Project) Materialise(root string) (projDir string, err error) {
 	projDir = filepath.Join(root, p.Dir)
